@@ -509,7 +509,51 @@ fn calc_hmac(input: &[u8], key: &[u8]) -> [u8; SHA256_DIGEST_LENGTH] {
     output
 }
 
+#[cfg(feature = "verif-hooks")]
+pub mod verif_hooks {
+    //! Verification hook: lets a test harness supply the bytes that are otherwise random.
+    use std::cell::RefCell;
+    use std::collections::VecDeque;
+
+    thread_local! {
+        static FILL: RefCell<VecDeque<u8>> = RefCell::new(VecDeque::new());
+    }
+
+    /// Queues bytes that the next handshake packets generated on this thread use instead of
+    /// random data.  When the queue runs dry random data is used again.
+    pub fn queue_fill_bytes(bytes: &[u8]) {
+        FILL.with(|f| f.borrow_mut().extend(bytes.iter().cloned()));
+    }
+
+    /// Discards any queued bytes
+    pub fn clear_fill_bytes() {
+        FILL.with(|f| f.borrow_mut().clear());
+    }
+
+    pub(super) fn fill(buffer: &mut [u8]) -> bool {
+        FILL.with(|f| {
+            let mut queue = f.borrow_mut();
+            if queue.len() < buffer.len() {
+                return false;
+            }
+
+            for x in buffer.iter_mut() {
+                *x = queue.pop_front().unwrap();
+            }
+
+            true
+        })
+    }
+}
+
 fn fill_with_random_data(buffer: &mut [u8]) {
+    #[cfg(feature = "verif-hooks")]
+    {
+        if verif_hooks::fill(buffer) {
+            return;
+        }
+    }
+
     let mut rng = rand::thread_rng();
     for x in 0..buffer.len() {
         let value = rng.gen();
